@@ -169,7 +169,7 @@ func c11Strings(c *core.Ctx) {
 		return
 	}
 	defer os.RemoveAll(root)
-	n := c.Pick(4000, 200000)
+	n := c.Pick(24000, 400000)
 	for idx := 0; idx < n; idx++ {
 		if !c.Mine(idx) {
 			continue
@@ -348,7 +348,7 @@ func (h *bdHome) lastRequestID(loc string) string {
 // c11Process: parameters as real child processes of start / retry / restart see them.
 func c11Process(c *core.Ctx) {
 	self, _ := os.Executable()
-	n := c.Pick(48, 1500)
+	n := c.Pick(96, 1500)
 	for idx := 0; idx < n; idx++ {
 		if !c.Mine(idx) {
 			continue
@@ -488,7 +488,7 @@ func genOutput(r *rand.Rand, idx int) (content []byte, class string) {
 
 func c11Outputs(c *core.Ctx) {
 	self, _ := os.Executable()
-	n := c.Pick(44, 1200)
+	n := c.Pick(88, 1200)
 	for idx := 0; idx < n; idx++ {
 		if !c.Mine(idx) {
 			continue
@@ -611,6 +611,6 @@ func init() {
 				{Name: "outputs", Mode: "outputs", Shards: 12, Timeout: 60 * time.Minute},
 			}
 		},
-		Rule:        "Parameter strings are BUILT from the documented syntax (1-4 tokens: bare word, \"quoted value\" with \\\" escapes, NAME=value, NAME=\"quoted value\"; values from a pool with spaces, leading/trailing blanks, quotes inside and at the edges, '=', backslashes, unicode, empty, glob and shell characters, 2 kB), so the expected values are known by construction. strings pass: 4000 (200000) strings through dag.Load as start parameters or as the definition's defaults: DAG.Params, the exported $1..$n and $NAME, and the round trip retry/restart perform (reload with model.Params(recorded)). process pass: 48 (1500) cases with the real blackdagger binary: steps and handlers are probe child processes that dump the environment they see; start -p (as client.Start hands parameters over) or defaults, then a second run with other parameters and retry --req of the FIRST run, then restart; every probe must see exactly the given values. outputs pass: 44 (1200) cases: a producer child prints known bytes (sizes 0, 1, 2, 100, 4095-4097, 65535-65537, 100000; whitespace around/inside; quotes, = $ \\, unicode, shell characters; optionally also stderr), consumers (next step, a later step, onFailure/onSuccess/onExit handlers, the re-executed step of a retry) dump $CAPTURED which must equal the trimmed stdout; the producing run must end within 60 s. Non-trivial/distinct = distinct strings / cases.",
+		Rule:        "Parameter strings are BUILT from the documented syntax (1-4 tokens: bare word, \"quoted value\" with \\\" escapes, NAME=value, NAME=\"quoted value\"; values from a pool with spaces, leading/trailing blanks, quotes inside and at the edges, '=', backslashes, unicode, empty, glob and shell characters, 2 kB), so the expected values are known by construction. strings pass: 24000 (400000) strings through dag.Load as start parameters or as the definition's defaults: DAG.Params, the exported $1..$n and $NAME, and the round trip retry/restart perform (reload with model.Params(recorded)). process pass: 96 (1500) cases with the real blackdagger binary: steps and handlers are probe child processes that dump the environment they see; start -p (as client.Start hands parameters over) or defaults, then a second run with other parameters and retry --req of the FIRST run, then restart; every probe must see exactly the given values. outputs pass: 88 (1200) cases: a producer child prints known bytes (sizes 0, 1, 2, 100, 4095-4097, 65535-65537, 100000; whitespace around/inside; quotes, = $ \\, unicode, shell characters; optionally also stderr), consumers (next step, a later step, onFailure/onSuccess/onExit handlers, the re-executed step of a retry) dump $CAPTURED which must equal the trimmed stdout; the producing run must end within 60 s. Non-trivial/distinct = distinct strings / cases.",
 		Assumptions: []string{"'$' and backticks are not generated inside parameter values (environment and command substitution are documented features of start parameters)", "newlines inside a parameter are not generated; captured outputs stay below the kernel's 128 KiB per-string exec limit"}})
 }
